@@ -58,20 +58,27 @@ Proof. by rewrite /marker /mxtrace raddf_sum. Qed.
 Lemma mxtrace_adj M : \tr (adjmx M) = (\tr M)^*.
 Proof. by rewrite /mxtrace rmorph_sum; apply: eq_bigr => i _; rewrite adjmxE. Qed.
 
-Lemma marker_sum_zero P a b : hermitian P -> idempotent P -> realv a -> realv b ->
-  \sum_i marker P a b i = 0.
+(* P P = c P with c real: covers projectors (c = 1) and integer-numerator matrices D * P (c = D) *)
+Lemma marker_sum_zero_scaled (c : C) P a b : hermitian P -> c \is Num.real -> P *m P = c *: P ->
+  realv a -> realv b -> \sum_i marker P a b i = 0.
 Proof.
-move=> hP iP ra rb; rewrite marker_sum.
-have trE : \tr (tripleP P a b) = \tr (P *m diag_mx a *m P *m diag_mx b).
-  by rewrite /tripleP mxtrace_mulC !mulmxA iP.
+move=> hP rc iP ra rb; rewrite marker_sum.
+have trE : \tr (tripleP P a b) = c * \tr (P *m diag_mx a *m P *m diag_mx b).
+  by rewrite /tripleP mxtrace_mulC !mulmxA iP -!scalemxAl mxtraceZ.
 rewrite trE.
 set T := P *m diag_mx a *m P *m diag_mx b.
 have : (\tr T)^* = \tr T.
   rewrite -mxtrace_adj /T !adjmxM hP !adjmx_diag //.
   by rewrite mxtrace_mulC !mulmxA.
-by move/CrealP/Creal_ImP.
+move/CrealP=> rT; apply/Creal_ImP; exact: realM.
 Qed.
 
+Lemma marker_sum_zero P a b : hermitian P -> idempotent P -> realv a -> realv b ->
+  \sum_i marker P a b i = 0.
+Proof.
+move=> hP iP; apply: (@marker_sum_zero_scaled 1) => //; first exact: real1.
+by rewrite scale1r.
+Qed.
 
 (* ---------- relabelling the sites by a permutation s (new site i = old site s i;
    lattice.py permute_vertices: new positions[i] = positions[ordering[i]]) ---------- *)
@@ -171,5 +178,48 @@ Proof. by move=> h; rewrite mxE h. Qed.
 
 Lemma stepv_relab s x X : stepv (relabv s x) X = relabv s (stepv x X).
 Proof. by apply/rowP=> j; rewrite !mxE. Qed.
+
+
+(* ---------- the property's clauses for the two markers ---------- *)
+Lemma crosshair_real P x y X Y i : crosshair P x y X Y i \is Num.real.
+Proof. exact: marker_real. Qed.
+Lemma chern_real P x y i : chern P x y i \is Num.real.
+Proof. exact: marker_real. Qed.
+
+Lemma crosshair_sum_zero P x y X Y : hermitian P -> idempotent P ->
+  \sum_i crosshair P x y X Y i = 0.
+Proof. by move=> hP iP; apply: marker_sum_zero => //; apply: stepv_real. Qed.
+Lemma chern_sum_zero P x y : hermitian P -> idempotent P -> realv x -> realv y ->
+  \sum_i chern P x y i = 0.
+Proof. exact: marker_sum_zero. Qed.
+
+(* exchanging the x and y coordinates (of the sites and of the crosshair) flips the sign *)
+Lemma crosshair_swap P x y X Y i : hermitian P ->
+  crosshair P y x Y X i = - crosshair P x y X Y i.
+Proof. by move=> hP; apply: marker_swap => //; apply: stepv_real. Qed.
+Lemma chern_swap P x y i : hermitian P -> realv x -> realv y ->
+  chern P y x i = - chern P x y i.
+Proof. by move=> hP rx ry; apply: marker_swap. Qed.
+
+(* the markers follow the sites under relabelling *)
+Lemma crosshair_relabel s P x y X Y i :
+  crosshair (relab s P) (relabv s x) (relabv s y) X Y i = crosshair P x y X Y (s i).
+Proof. by rewrite /crosshair !stepv_relab marker_relabel. Qed.
+Lemma chern_relabel s P x y i :
+  chern (relab s P) (relabv s x) (relabv s y) i = chern P x y (s i).
+Proof. exact: marker_relabel. Qed.
+
+(* site-wise sign changes of the states spanning P *)
+Lemma crosshair_gauge d P x y X Y i : signv d ->
+  crosshair (gaugeP d P) x y X Y i = crosshair P x y X Y i.
+Proof. exact: marker_gauge. Qed.
+Lemma chern_gauge d P x y i : signv d -> chern (gaugeP d P) x y i = chern P x y i.
+Proof. exact: marker_gauge. Qed.
+
+(* strictness: a site exactly on the crosshair line does not contribute through theta_x:
+   moving only that site's x coordinate to anything >= X leaves the marker unchanged, while a
+   `<=` comparison would give theta = 1 there *)
+Lemma stepv_above x X j : (X <= x 0 j)%R -> stepv x X 0 j = 0.
+Proof. by move=> h; rewrite mxE (le_gtF h). Qed.
 
 End Marker.
